@@ -288,7 +288,7 @@ def run(prop, tier, seed, replay=None):
                method_mode="one" if quick else "all",
                mut_fraction=0.5 if quick else 1.0, mut_min=3,
                pairs=100 if quick else 600)
-    results = run_sharded(binary, inp, timeout=170 if quick else 900)
+    results = run_sharded(binary, inp, timeout=400 if quick else 1500)
     got = {r["id"] for r in results}
     if got != set(by_id):
         raise Inconclusive("driver returned %d of %d cases" % (len(got), len(by_id)))
